@@ -13,7 +13,7 @@
 import Buidl.Model.Bytes
 import Buidl.Gen.Mnemonic
 import Buidl.Gen.Pbkdf2
-import Buidl.Gen.Bip39Text
+import Buidl.Gen.Bip39Words
 namespace Buidl.Mnemonic
 open Buidl
 
@@ -47,10 +47,28 @@ def pyJoin : List PyStr → PyStr
 structure WordList where
   words : List PyStr
 
-/-- mnemonic.WordList.__init__: `none` = ValueError (unexpected number of words) -/
-def WordList.load (text : PyStr) (numWords : Nat) : Option WordList :=
-  let ws := pySplit text
-  if ws.length != numWords then none else some ⟨ws⟩
+/-- the generator (harness/gen_parts/mnemonic.py) hands over `f.read().split()` with every word packed
+    into one number, its code points being the base-`Gen.cpBase` digits, most significant first
+    (kernel computation over thousands of such numbers is cheap, over `String`s it is not).
+    `fuel` bounds the word length; `none` = fuel exhausted (the generator refuses longer words). -/
+def decodeWordAux : Nat → Nat → PyStr → Option PyStr
+  | _, 0, acc => some acc
+  | 0, _ + 1, _ => none
+  | fuel + 1, n + 1, acc => decodeWordAux fuel ((n + 1) / Gen.cpBase) ((n + 1) % Gen.cpBase :: acc)
+
+def decodeWord (n : Nat) : Option PyStr := decodeWordAux Gen.cpMaxWord n []
+
+def decodeWords : List Nat → Option (List PyStr)
+  | [] => some []
+  | n :: r => match decodeWord n, decodeWords r with
+    | some w, some ws => some (w :: ws)
+    | _, _ => none
+
+/-- mnemonic.WordList.__init__: `none` = ValueError (unexpected number of words) (or an undecodable table) -/
+def WordList.load (packed : List Nat) (numWords : Nat) : Option WordList :=
+  match decodeWords packed with
+  | none => none
+  | some ws => if ws.length != numWords then none else some ⟨ws⟩
 
 /-- the keys `WordList.__init__` stores for the word `w`: `w` itself and, if `len(w) > 4`, `w[:4]` -/
 def matchesKey (w key : PyStr) : Bool :=
@@ -76,10 +94,195 @@ def asciiLower (s : PyStr) : PyStr := s.map fun c => if 65 ≤ c ∧ c ≤ 90 th
 def WordList.normalize (wl : WordList) (w : PyStr) : Option PyStr :=
   (wl.lookup (asciiLower w)).bind wl.word
 
-def bip39Text : PyStr :=
-  Gen.bip39Text0 ++ Gen.bip39Text1 ++ Gen.bip39Text2 ++ Gen.bip39Text3 ++ Gen.bip39Text4 ++ Gen.bip39Text5
-
 /-- `BIP39 = WordList("bip39_words.txt", 2048)`; `none` = the module fails to import -/
-def BIP39? : Option WordList := WordList.load bip39Text Gen.bip39Count
+def BIP39? : Option WordList := WordList.load Gen.bip39WordNats Gen.bip39Count
+
+/-- `[WL[word] for word in words]`; `none` = KeyError -/
+def lookupAll (wl : WordList) : List PyStr → Option (List Nat)
+  | [] => some []
+  | w :: r => match wl.lookup w, lookupAll wl r with
+    | some i, some is => some (i :: is)
+    | _, _ => none
+
+/-! ## mnemonic.mnemonic_to_bytes / bytes_to_mnemonic -/
+
+/-- the loop `for word in words: all_bits <<= 11; all_bits += BIP39[word]`; `none` = KeyError -/
+def wordsToBits (wl : WordList) : List PyStr → Nat → Option Nat
+  | [], acc => some acc
+  | w :: r, acc =>
+    match wl.lookup w with
+    | none => none
+    | some i => wordsToBits wl r ((acc <<< Gen.m2bWordBits) + i)
+
+/-- mnemonic.mnemonic_to_bytes on the already split word list.  `none` = any exception:
+    InvalidBIP39Length, KeyError (unknown word), InvalidChecksumWordsError; also OverflowError of
+    `int_to_big_endian`, IndexError of `sha256(s)[0]` on an empty digest and ValueError of a negative
+    shift count, none of which can occur for the extracted constants and a real SHA-256. -/
+def wordsToBytes (sha256 : Bytes → Bytes) (wl : WordList) (words : List PyStr) : Option Bytes :=
+  if !(Gen.m2bWordCounts.contains words.length) then none else
+  let numWords := words.length
+  match wordsToBits wl words 0 with
+  | none => none
+  | some allBits =>
+    let numChecksumBits := numWords / Gen.m2bCsDiv
+    let checksum := allBits &&& ((1 <<< numChecksumBits) - 1)
+    let allBits := allBits >>> numChecksumBits
+    let numBytes := (numWords * Gen.m2bWordBits2 - numChecksumBits) / Gen.m2bByteBits
+    match natToBE allBits numBytes with
+    | none => none
+    | some s =>
+      match sha256 s with
+      | [] => none
+      | h0 :: _ =>
+        if numChecksumBits > Gen.m2bCsFrom then none else
+        let computed := h0.toNat >>> (Gen.m2bCsFrom - numChecksumBits)
+        if checksum != computed then none else some s
+
+/-- mnemonic.mnemonic_to_bytes -/
+def mnemonicToBytes (sha256 : Bytes → Bytes) (wl : WordList) (mnemonic : PyStr) : Option Bytes :=
+  wordsToBytes sha256 wl (pySplit mnemonic)
+
+/-- the loop of bytes_to_mnemonic: `n` times take the low 11 bits, `mnemonic.insert(0, BIP39[current])`,
+    shift right; `none` = IndexError (cannot happen when the table has 2^11 entries) -/
+def bitsToWords (wl : WordList) : Nat → Nat → List PyStr → Option (List PyStr)
+  | 0, _, acc => some acc
+  | n + 1, allBits, acc =>
+    match wl.word (allBits &&& ((1 <<< Gen.b2mWordBits2) - 1)) with
+    | none => none
+    | some w => bitsToWords wl n (allBits >>> Gen.b2mWordBits3) (w :: acc)
+
+/-- mnemonic.bytes_to_mnemonic before the final `" ".join`: the word list -/
+def bytesToWords (sha256 : Bytes → Bytes) (wl : WordList) (b : Bytes) (numBits : Nat) :
+    Option (List PyStr) :=
+  if !(Gen.b2mNumBits.contains numBits) then none else
+  let preseed := beToNat b
+  let numChecksumBits := numBits / Gen.b2mCsDiv
+  match sha256 b with
+  | [] => none
+  | h0 :: _ =>
+    if numChecksumBits > Gen.b2mCsFrom then none else
+    let checksum := h0.toNat >>> (Gen.b2mCsFrom - numChecksumBits)
+    let allBits := (preseed <<< numChecksumBits) ||| checksum
+    bitsToWords wl ((numBits + numChecksumBits) / Gen.b2mWordBits) allBits []
+
+/-- mnemonic.bytes_to_mnemonic -/
+def bytesToMnemonic (sha256 : Bytes → Bytes) (wl : WordList) (b : Bytes) (numBits : Nat) :
+    Option PyStr :=
+  (bytesToWords sha256 wl b numBits).map pyJoin
+
+/-! ## the vendored buidl/pbkdf2.py -/
+
+/-- pbkdf2.binxor: `bytes([x ^ y for (x, y) in zip(a, b)])` (truncates to the shorter argument) -/
+def binxor (a b : Bytes) : Bytes := List.zipWith (· ^^^ ·) a b
+
+/-- the state of a `PBKDF2` object after `_setup` -/
+structure PBKDF2 where
+  passphrase : Bytes
+  salt : Bytes
+  iterations : Nat
+  blockNum : Nat
+  buf : Bytes
+
+/-- PBKDF2.__init__ / _setup for `bytes` arguments and an `int` iteration count;
+    `none` = ValueError("iterations must be at least 1") -/
+def PBKDF2.new (passphrase salt : Bytes) (iterations : Nat) : Option PBKDF2 :=
+  if iterations < 1 then none
+  else some { passphrase := passphrase, salt := salt, iterations := iterations, blockNum := 0, buf := [] }
+
+/-- the loop of `__f`: `for j in xrange(2, 1 + iterations): U = prf(P, U); result = binxor(result, U)` -/
+def fLoop (prf : Bytes → Bytes → Bytes) (pass : Bytes) : Nat → Bytes → Bytes → Bytes
+  | 0, _, result => result
+  | n + 1, u, result =>
+    let u' := prf pass u
+    fLoop prf pass n u' (binxor result u')
+
+/-- PBKDF2.__f (the caller guarantees `1 ≤ i ≤ 0xffffffff`; `pack("!L", i)` is the 4-byte big-endian `i`) -/
+def PBKDF2.f (prf : Bytes → Bytes → Bytes) (st : PBKDF2) (i : Nat) : Bytes :=
+  let u := prf st.passphrase (st.salt ++ natToBE' 4 i)
+  fLoop prf st.passphrase (st.iterations - 1) u u
+
+/-- the `while size < bytes` loop of `read`; `blocks` is kept joined.
+    `none` = OverflowError("derived key too long") -/
+def readLoop (prf : Bytes → Bytes → Bytes) (st : PBKDF2) (want : Nat) (i size : Nat) (blocks : Bytes) :
+    Option (Nat × Bytes) :=
+  if size < want then
+    let i' := i + 1
+    if _h : i' > Gen.counterMax ∨ i' < 1 then none
+    else
+      let block := st.f prf i'
+      readLoop prf st want i' (size + block.length) (blocks ++ block)
+  else some (i, blocks)
+termination_by Gen.counterMax + 1 - i
+decreasing_by omega
+
+/-- PBKDF2.read(bytes): the returned key bytes and the new state; `none` = OverflowError -/
+def PBKDF2.read (prf : Bytes → Bytes → Bytes) (st : PBKDF2) (n : Nat) : Option (Bytes × PBKDF2) :=
+  match readLoop prf st n st.blockNum st.buf.length st.buf with
+  | none => none
+  | some (i, buf) => some (buf.take n, { st with buf := buf.drop n, blockNum := i })
+
+/-- consecutive reads from one object -/
+def PBKDF2.reads (prf : Bytes → Bytes → Bytes) : PBKDF2 → List Nat → Option (List Bytes)
+  | _, [] => some []
+  | st, n :: ns =>
+    match st.read prf n with
+    | none => none
+    | some (out, st') => (PBKDF2.reads prf st' ns).map (out :: ·)
+
+/-- `PBKDF2(passphrase, salt, iterations, …).read(n)` -/
+def pbkdf2Vendored (prf : Bytes → Bytes → Bytes) (passphrase salt : Bytes) (iterations n : Nat) :
+    Option Bytes :=
+  match PBKDF2.new passphrase salt iterations with
+  | none => none
+  | some st => (st.read prf n).map (·.1)
+
+/-! ## helper.hmac_sha512_kdf and HDPrivateKey.from_mnemonic -/
+
+/-- `str.encode("UTF-8")`; `none` = UnicodeEncodeError (surrogate code points) -/
+def utf8Encode : PyStr → Option Bytes
+  | [] => some []
+  | c :: r =>
+    match utf8Encode r with
+    | none => none
+    | some t =>
+      if c < 0x80 then some (UInt8.ofNat c :: t)
+      else if c < 0x800 then some (UInt8.ofNat (0xC0 + c / 64) :: UInt8.ofNat (0x80 + c % 64) :: t)
+      else if c < 0x10000 then
+        if 0xD800 ≤ c ∧ c ≤ 0xDFFF then none
+        else some (UInt8.ofNat (0xE0 + c / 4096) :: UInt8.ofNat (0x80 + c / 64 % 64) :: UInt8.ofNat (0x80 + c % 64) :: t)
+      else if c < 0x110000 then
+        some (UInt8.ofNat (0xF0 + c / 262144) :: UInt8.ofNat (0x80 + c / 4096 % 64)
+          :: UInt8.ofNat (0x80 + c / 64 % 64) :: UInt8.ofNat (0x80 + c % 64) :: t)
+      else none
+
+/-- helper.hmac_sha512_kdf(msg, salt) with `msg : str`, `salt : bytes`:
+    `PBKDF2(msg, salt, iterations=PBKDF2_ROUNDS, macmodule=hmac, digestmodule=sha512).read(64)`;
+    `prf` stands for HMAC-SHA512 -/
+def hmacSha512Kdf (prf : Bytes → Bytes → Bytes) (msg : PyStr) (salt : Bytes) : Option Bytes :=
+  match utf8Encode msg with
+  | none => none
+  | some m => pbkdf2Vendored prf m salt Gen.kdfIterations Gen.kdfReadLen
+
+def mapM? {α β} (f : α → Option β) : List α → Option (List β)
+  | [] => some []
+  | a :: r => match f a, mapM? f r with
+    | some b, some bs => some (b :: bs)
+    | _, _ => none
+
+/-- the part of HDPrivateKey.from_mnemonic before `cls.from_seed(seed, …).traverse(path)`:
+    validity check, normalisation of four-letter prefixes to full words, salt, KDF → the seed -/
+def mnemonicToSeed (sha256 : Bytes → Bytes) (prf : Bytes → Bytes → Bytes) (wl : WordList)
+    (mnemonic : PyStr) (password : Bytes) : Option Bytes :=
+  match mnemonicToBytes sha256 wl mnemonic with
+  | none => none
+  | some _ =>
+    match mapM? wl.normalize (pySplit mnemonic) with
+    | none => none
+    | some ws => hmacSha512Kdf prf (pyJoin ws) (Gen.seedSaltPrefix ++ password)
+
+/-- HDPrivateKey.from_mnemonic with the BIP32 master derivation (`from_seed`, property C08) as a parameter -/
+def fromMnemonic {K} (sha256 : Bytes → Bytes) (prf : Bytes → Bytes → Bytes) (fromSeed : Bytes → Option K)
+    (wl : WordList) (mnemonic : PyStr) (password : Bytes) : Option K :=
+  (mnemonicToSeed sha256 prf wl mnemonic password).bind fromSeed
 
 end Buidl.Mnemonic
